@@ -254,14 +254,14 @@ def build_graph(ctx, scratch, layout, tag):
     return set(pstate.values()), E
 
 
-def binding_pass(ctx, build, scratch, layout, ref, pool, depth, tag):
+def binding_pass(ctx, build, scratch, layout, ref, pool, depth, tag, require=None):
     """Histories up to `depth` accepted events, each extended by every probe, are
     written as real stream.obs files and run through the real ovniemu binary; exit
     status and the complete thread.prv / cpu.prv must equal what the exploration
     server produced for the same history."""
     from lib.common import pmap
     emu = build.tool("plain", "ovniemu")
-    sysm = emusrv.System(layout.spec)
+    sysm = emusrv.System(layout.spec, require=require) if require else emusrv.System(layout.spec)
     stream_of = {pool.local.streams[layout.threads[t]["rel"]]: layout.threads[t]["rel"] for t in layout.tnames}
     # enumerate accepted model paths by BFS over the TLC graph (depth-limited)
     s0 = ref.init()
@@ -351,13 +351,18 @@ def run(prop, tier):
             plan = [("A2", (1,), 2), ("P2", (1,), 1)] if tier == "quick" else [("A2", (1, 0), 3), ("P2", (1,), 2), ("A3", (1,), 2), ("AB", (1,), 2)]
         else:
             plan = [("A2", (1, 0), 2), ("A2c1", (1,), 2)] if tier == "quick" else [("A3", (1, 0), 2), ("AB", (1, 0), 2), ("A2c1", (1, 0), 3)]
+        from lib import catalog
+        cat = catalog.load_events()
+        allreq = {m: d["version"] for m, d in cat.items()}
         for (cfgname, dts, bdepth) in plan:
+            # P2 and AB: the streams require every model (end-of-trace checks run through all enabled models)
+            req = allreq if cfgname in ("P2", "AB") else None
             if ctx.out_of_time(0.7):
                 ctx.cap("configuration %s not started (deadline)" % cfgname)
                 continue
             layout = Layout(CONFIGS[cfgname])
             mstates, E = build_graph(ctx, scratch, layout, cfgname)
-            system = emusrv.System(layout.spec)
+            system = emusrv.System(layout.spec, require=req) if req else emusrv.System(layout.spec)
             td = system.write(scratch.sub("trace-" + cfgname))
             pool = ServerPool(exe, td, ["-l"])
             pool.meta = system.meta if "system" in dir() else None
@@ -375,13 +380,13 @@ def run(prop, tier):
                 st = ex.run()
                 unreached = len(mstates - ex.model_seen)
                 ctx.part("walk-" + cfgname, tlc_states=len(mstates), tlc_states_not_reached_on_impl=unreached,
-                         config=layout.spec, clock_steps=list(dts))
+                         config=layout.spec, clock_steps=list(dts), models_required=sorted(req) if req else ["ovni"])
                 if unreached and not ctx.nviol and ctx.cov["exhaustive"]:
                     # only possible through soft (affinity) refusals; hard edges would have raised
                     ctx.part("walk-" + cfgname, note="model states reachable only through affinity events the emulator refuses")
                 if not ctx.nviol:
                     ref1 = TcRef(layout, (mstates, E), sidx, dts=(1,))
-                    binding_pass(ctx, build, scratch, layout, ref1, pool, bdepth if tier != "quick" else min(bdepth, 2), cfgname)
+                    binding_pass(ctx, build, scratch, layout, ref1, pool, bdepth if tier != "quick" else min(bdepth, 2), cfgname, require=req)
                 ctx.sample({"config": cfgname, "example_history": short_hist([e for (_, e) in ref.alphabet(None)[:6]]),
                             "states": st["states"], "probes": st["probes"]})
             finally:
